@@ -14,7 +14,7 @@ TECHNIQUE = ('exhaustive enumeration of (ref, ref0, res_ref) assignments to the 
              'reference (converged state, inputs, residuals, totals) and the scaled-value formula')
 RULE = ('every assignment of a 9-entry scaling palette (none, scalar ref, ref/ref0/res_ref, negative '
         'ref, ref<ref0, array ref+ref0, scalar ref+array ref0, array ref+scalar ref0, array res_ref) '
-        'to each of <= 3 outputs of 5 base models (full product) x mode {fwd, rev}, plus single-output '
+        'to each of <= 3 outputs of 6 base models (full product) x mode {fwd, rev}, plus single-output '
         'assignments on the 1-ball of the models (linear solver, assembled jac, partial format, units, rhs_checking, '
         'src_indices wiring, IVC scaling); non-trivial = at least one output carries a non-identity '
         'scaling and the model converged; each configuration is enumerated once')
@@ -58,6 +58,7 @@ BASES = [
      'units': 'm_cm'},
     {'topo': 'fanin', 'hier': 'nest2', 'kinds': 'allquad', 'wiring': 'prom1', 'units': 'degC_degF'},
     {'topo': 'cycle_tail', 'hier': 'cycG', 'ln': 'Direct', 'rhsck': 'on'},
+    {'topo': 'cycle_tail', 'hier': 'cycG', 'nl': 'Newton', 'ln': 'Direct'},
 ]
 
 DIMS1 = collections.OrderedDict([
